@@ -2,7 +2,8 @@
 // A data set is a D x N matrix, one sample per column (tapkee's convention).
 #pragma once
 #include "common.hpp"
-#include <Eigen/Dense>
+// Eigen is always included through tapkee's own wrapper so that every translation unit sees the same Eigen configuration
+#include <tapkee/defines/eigen3.hpp>
 
 namespace vh
 {
